@@ -42,6 +42,10 @@ NESTED_VENDOR = [
      "s1 = Query.from_(t2).select(t2.a, Array(1, 2).as_('arr'), (t2.b + Interval(days=1)).as_('d'))\n"
      "s0 = Query.from_(s1.as_('sq')).select('a', 'arr')\n"
      "q2 = Query.from_(s0.as_('sq2')).select('a').join(s1.as_('j1')).on(F('a') == F('b'))", "q2"),
+    # vendor forms as DIRECT function arguments (Interval is a Node, not a Term) and inside CASE, at two depths
+    ("t1 = T('t')\nt2 = T('u')\n"
+     "s1 = Query.from_(t2).select(fn.Coalesce(t2.a, Interval(days=2)), Case().when(t2.b > Interval(minutes=5), Array(1)).else_(Array(2, 3)))\n"
+     "q2 = Query.from_(t1).select(fn.Coalesce(t1.a, Interval(hours=1)), fn.Max(Interval(days=3))).where(t1.a.isin(s1))", "q2"),
     ("t1 = T('t')\nt2 = T('u')\n"
      "q2 = Query.from_(t1).select(t1.a, Array(3)).union(Query.from_(t2).select(t2.a, Array(1, 2)).where(t2.b > Interval(weeks=1)))", "q2"),
 ]
